@@ -103,7 +103,7 @@ pub fn make_variant(base: &History, choices: &[u8]) -> Variant {
                 let x0 = a.args[0];
                 // re-bind the first operand's variable to the result when the program no longer names it
                 // (sum(0) returns a handle of the same array: re-binding it would drop nothing, skip)
-                let rebind = next(3) && last_use[x0] == i && obs[x0].is_some() && !dead[x0] && !matches!(a.op, OpKind::Sum(0)) && a.args.iter().filter(|&&y| y == x0).count() >= 1;
+                let rebind = next(3) && last_use[x0] == i && !dead[x0] && !matches!(a.op, OpKind::Sum(0)) && a.args.iter().filter(|&&y| y == x0).count() >= 1;
                 if rebind {
                     out.push(Step::Rebind { target: map[x0], spec: ApplySpec { op: a.op.clone(), args: vargs } });
                     map[cur] = map[x0];
@@ -144,7 +144,7 @@ pub fn make_variant(base: &History, choices: &[u8]) -> Variant {
         }
         // drop handles the program no longer names (their observers stay, to read results at the end)
         for h in 0..cur {
-            if !dead[h] && last_use[h] == i && obs[h].is_some() && i + 1 < base.steps.len() && next(2) {
+            if !dead[h] && last_use[h] == i && i + 1 < base.steps.len() && next(2) {
                 // a handle re-bound in this very step already lives on under the result's name
                 if (0..cur).any(|g| g != h && !dead[g] && map[g] == map[h]) {
                     continue;
@@ -156,7 +156,8 @@ pub fn make_variant(base: &History, choices: &[u8]) -> Variant {
             }
         }
     }
-    let read: Vec<usize> = (0..nh).map(|h| obs[h].unwrap_or(map[h])).collect();
+    // a handle that was dropped without an observer cannot be read any more: it is not compared (usize::MAX)
+    let read: Vec<usize> = (0..nh).map(|h| obs[h].unwrap_or(if dead[h] { usize::MAX } else { map[h] })).collect();
     let other: Vec<Option<usize>> = (0..nh).map(|h| if obs[h].is_some() && !dead[h] { Some(map[h]) } else { None }).collect();
     Variant { hist: History { steps: out }, read, other, n_rewrites, touched_shared_or_root: touched }
 }
@@ -194,6 +195,9 @@ impl Case12 {
         }
         let mut compared = 0;
         for h in 0..v.read.len() {
+            if v.read[h] == usize::MAX {
+                continue;
+            }
             let Some(a) = observe(&p, h) else { continue };
             let Some(b) = observe(&q, v.read[h]) else {
                 return Err(("internal".into(), format!("variant slot {} of base handle {} is dead", v.read[h], h)));
